@@ -7,6 +7,7 @@ from vlib import fsweep
 from xck.image import Image
 from xck import layout
 
+FLOODS = []
 ASAN_RE = re.compile(r'ERROR: AddressSanitizer|ERROR: LeakSanitizer|SUMMARY: AddressSanitizer|runtime error:')
 TMO = 20
 
@@ -20,6 +21,11 @@ def status_ok(tool_, rc):
 
 def classify(tool_, argv, rc, out):
     """None if fine, else (kind, text)"""
+    if rc == 'TIMEOUT' and '[output flood' in out:
+        # tens of megabytes of messages (one per block of a range that a corrupt pointer or count makes millions of blocks long): the run is cut there.  It is
+        # neither a crash nor shown to be a hang; the case is counted as inconclusive (evidence: output_floods) and nothing is claimed for it
+        FLOODS.append(' '.join(os.path.basename(a) for a in argv[:3]))
+        return None
     if rc == 'TIMEOUT': return ('hang', 'no exit within %d s' % TMO)
     if ASAN_RE.search(out) or rc == 99:
         m = re.search(r'(ERROR: AddressSanitizer[^\n]*)', out)
@@ -320,7 +326,8 @@ def main(tier, only=None):
            samples=['ext4csum/ino12.i_size_lo=0x0+seal :: e2fsck -fy', 'tiny/blk5+17=0xff :: e2fsck -fn', 'undo+40=0xff :: e2undo'])
     ck.cov['distinct_failure_signatures'] = len(sig)
     ck.cov['failure_signatures'] = sorted('%s (%d inputs)' % (' | '.join(k), n) for k, n in sig.items())[:40]
-    ck.assumptions += ['scope: inputs within one corrupted field / one byte (thorough: two fields) of well-formed images; not arbitrary byte strings',
+    ck.assumptions += ['a run that prints more than 64 MB of messages (one per block of a range that a corrupt pointer makes millions of blocks long, e.g. a triple-indirect pointer aimed at a metadata block) is cut there and counted as inconclusive: not a crash, not shown to be a hang, nothing claimed',
+                       'scope: inputs within one corrupted field / one byte (thorough: two fields) of well-formed images; not arbitrary byte strings',
                        'UBSan is not an oracle here (the property is about memory safety, crashes and hangs)', 'leak reports are disabled (detect_leaks=0)']
     return ck.finish()
 
